@@ -245,6 +245,8 @@ def c11_sample_table(kinds, k=0, pass_beads_table=True):
             r['beads'] = 'B_ok'
             if r['fault'] is None:
                 r['units'] = {FL0: 'MEF', FL1: None}
+        if col and r['fault'] is None and (r['units'].get(FL1) or '').lower() == 'mef':
+            r['units'] = {FL0: 'MEF', FL1: 'RFI'}          # the reduced context calibrates the first channel only
         rows.append(r)
     ctx['samples'] = rows
     return ctx
@@ -289,7 +291,7 @@ def sample_tables(tier, rnd, gf):
                     t[pos] = f
                     tables.append(t)
             n = 0
-            while n < 40:
+            while n < 25:
                 t = [rnd.choice(plain + ['ok', 'ok']) for _ in range(rnd.choice([3, 3, 4, 5]))]
                 if c11_compatible(t):
                     tables.append(t)
@@ -341,7 +343,6 @@ def bead_tables(tier, rnd, gf):
     if not gf:
         tables = [[a] for a in plain]
         if tier == 'quick':
-            faults = plain[1:]
             tables += [['ok', 'unequal'], ['few', 'ok'], ['notfound', 'unequal'], ['ok', 'notfound']]
         else:
             tables += [p for p in pairs if not has_gf(p)]
@@ -502,7 +503,7 @@ BOUNDS = {
             'row, channel not calibrated, beads on another instrument, other detector voltage, other amplifier}: quick the 10 '
             'one-row tables, one all-healthy 3-row table whose rows report different channels, 5 healthy+faulty pairs, 4 seeded '
             'faulty pairs; thorough all ordered pairs, every fault kind at every position of a 3-row table with two healthy rows, '
-            '40 seeded 3..5-row tables. Kinds that abort the whole batch on the current tree (fraction -0.1|-2|1.5|1.0001; channel '
+            '25 seeded 3..5-row tables. Kinds that abort the whole batch on the current tree (fraction -0.1|-2|1.5|1.0001; channel '
             'without a MEF Values column) come in a final part: quick 3 one-row + 4 two-row tables, thorough all ordered pairs '
             'containing one, each at every position of a 3-row table, 16 seeded 3..5-row tables. Every table is judged under the '
             'aspects samples and stats (broken statistics functions replaced by their definitions; the real ones for 2 tables); '
